@@ -29,6 +29,12 @@ def pivot():
     S.append(EnumSpec("Zero", [], note="no variants"))
     S.append(EnumSpec("Gen", [U("One", fields=[Field("T")]), U("H", disabled=True), U("Two", fields=[Field("T", name="t"), Field("u8", name="u")], named=True), U("Three")],
                       generics=GEN, ty_args="<u16>", subst={"T": "u16"}, note="type-generic with a disabled variant"))
+    S.append(EnumSpec("DisAttr", [
+        U("A"), U("H1", disabled=True, message="m", serialize=["h1"]), U("B"),
+        U("H2", disabled=True, message="m2", flags_last=True), U("C"),
+        U("H3", disabled=True, attr_style="trailing"), U("D"),
+        U("H4", disabled=True, serialize=["x", "y"], attr_style="split"), U("E"),
+    ], note="`disabled` sharing one #[strum(..)] attribute with key = value items (before and after them), with a trailing comma, and split over attributes"))
     S.append(EnumSpec("Eight", [U("V%d" % i, disabled=(i in (0, 4, 9))) for i in range(11)], note="8 enabled of 11"))
     return S
 
